@@ -42,7 +42,7 @@ func nscBase(r *rng) (string, string) {
 	// a program of the numscript generator that has something to vary
 	var text string
 	for try := 0; try < 30; try++ {
-		genNumscript(r.fork(), 1, "quick", func(j J) { text = j["text"].(string) })
+		genNumscriptBase(r.fork(), 1, "quick", func(j J) { text = j["text"].(string) })
 		if strings.Contains(text, "\"") || strings.Contains(text, "allowing") {
 			break
 		}
